@@ -41,7 +41,8 @@ def srt_stamp(ms, rng, frac=True):
     return out
 
 
-def render_srt(cues, rng):
+def render_srt(cues, rng, blank_rng=None):
+    """`blank_rng`: the lines between two cues may hold blanks or a tab (they are still "blank lines")"""
     nl = rng.choice(["\n", "\n", "\r\n"])
     out = []
     frac = rng.random() < 0.85
@@ -50,7 +51,8 @@ def render_srt(cues, rng):
         out.append(str(i + 1))
         out.append(srt_stamp(a, rng, frac) + sp + "-->" + sp + srt_stamp(b, rng, frac))
         out.extend(lines)
-        out.extend([""] * rng.choice([1, 1, 1, 2, 3]))
+        blank = blank_rng.choice(["", "", "", " ", "\t", "  \t"]) if blank_rng is not None else ""
+        out.extend([blank] * rng.choice([1, 1, 1, 2, 3]))
     doc = nl.join(out)
     if rng.random() < 0.5:
         doc = doc.rstrip("\r\n") + rng.choice(["", nl])
@@ -112,7 +114,10 @@ def run_reader(fmt, doc, opts, shared=False):
             rd = _SHARED.setdefault("srt", pycaption.SRTReader()) if shared else pycaption.SRTReader()
             cs = rd.read(doc)
         elif fmt == "webvtt":
-            cs = pycaption.WebVTTReader(ignore_timing_errors=opts.get("ign", True), time_shift_milliseconds=opts.get("shift", 0)).read(doc)
+            mk = lambda: pycaption.WebVTTReader(ignore_timing_errors=opts.get("ign", True), time_shift_milliseconds=opts.get("shift", 0))
+            # one long-lived reader per option set: what it did with the previous document is no business of this one
+            rd = _SHARED.setdefault(("webvtt", opts.get("ign", True), opts.get("shift", 0)), mk()) if shared else mk()
+            cs = rd.read(doc)
         elif fmt == "microdvd":
             rd = _SHARED.setdefault("microdvd", pycaption.MicroDVDReader()) if shared else pycaption.MicroDVDReader()
             cs = rd.read(doc)
@@ -127,6 +132,7 @@ def explore(chk):
     N = 600 if chk.tier == "quick" else 20000
     b = core.Batch()
     jobs = []
+    blank_sub = chk.sub("srt_blank_lines")
     for i in range(N):
         fmt = ["srt", "webvtt", "microdvd"][i % 3]
         n = rng.choice([0, 1, 2, 3, 5, 8, 12]) if rng.random() < 0.3 else rng.randint(1, 6)
@@ -151,7 +157,7 @@ def explore(chk):
             if fmt == "srt":
                 # a cue without any text line is not a well-formed SRT block (DESIGN §3 C01): not generated
                 cues = [(a, b_, ls or [gen.plain_line(rng)]) for (a, b_, ls) in cues]
-                doc, res = render_srt(cues, rng)
+                doc, res = render_srt(cues, rng, blank_sub)
                 S = [((a // res) * res * 1000, (b_ // res) * res * 1000) for (a, b_, ls) in cues if ls]
                 op = b.add("srt.read", core.enc(doc))
             else:
